@@ -14,6 +14,7 @@ import (
 	v2 "github.com/truora/minidyn/aws-v2/client"
 	"github.com/truora/minidyn/interpreter"
 	"github.com/truora/minidyn/simrt"
+	mtypes "github.com/truora/minidyn/types"
 )
 
 // Driver executes abstract commands against one real client.
@@ -361,6 +362,10 @@ func (d *V2) Exec(cmd *Cmd) (o Outcome) {
 	case "Native":
 		if cmd.Native == "activate" {
 			d.cl.ActivateNativeInterpreter()
+		}
+		if cmd.Native == "matcher" {
+			verdict := cmd.Verdict
+			d.cl.GetNativeInterpreter().AddMatcher(cmd.T, interpreter.ExpressionTypeFilter, FilterText(cmd), func(_, _ map[string]*mtypes.Item) bool { return verdict })
 		}
 		o.Class = "ok"
 	case "Bad":
